@@ -107,6 +107,13 @@ def form_data(form, **options):
     return compute_form_data(form, **options)
 
 
+def zero_like(e):
+    """An integrand map under which everything vanishes."""
+    from ufl.constantvalue import Zero
+
+    return Zero(e.ufl_shape, e.ufl_free_indices, e.ufl_index_dimensions) if isinstance(e, Expr) else e
+
+
 def fd_integrals_form(fd):
     """Re-assemble the integrals of FormData.integral_data into one form (order kept)."""
     itgs = []
